@@ -15,7 +15,7 @@ from sim import world as Wd
 ID = 'C07'
 LEVEL = 'exploration'
 ENGINE = 'history'
-BUDGET = {'quick': 4000, 'thorough': 400000}
+BUDGET = {'quick': 15000, 'thorough': 400000}
 WALL = {'quick': 45, 'thorough': 1500}
 RULE = ('one trash-put of one file per case over the lattice: home on / or on its own volume, 0-3 extra volumes, nested mount, state of '
         '.Trash (absent, sticky, non-sticky, symlink, file) and of .Trash-$uid (absent, dir, file, symlink to another volume), file on the '
